@@ -108,6 +108,7 @@ class Controller:
         k1=True,
         k2_budget=2,
         idle_only=False,
+        early_budget=0,
     ):
         self.chooser = chooser or Chooser()
         self.fine = fine
@@ -126,6 +127,10 @@ class Controller:
         # fairness: the environment does not stay silent forever while the loop is busy - after
         # this many consecutive declined injection points the first enabled action is injected
         # (no decision).  Only code that keeps the loop spinning ever gets there.
+        # asyncio runs a timer up to one clock resolution before it is due: as a decision (at
+        # most early_budget times per execution) the idle loop wakes inside that window
+        self.early_budget = early_budget
+        self.early_used = 0
         self.fair_after = 64
         self.declined = 0
         self.forced = 0
@@ -224,8 +229,12 @@ class Controller:
         # (a timer at +inf, e.g. sleep_forever(), never fires: it does not count)
         timer = bool(loop._scheduled) and loop._scheduled[0]._when != float("inf")
         if timer and loop._scheduled[0]._when < loop._vtime + loop._clock_resolution:
-            return  # a due timer will be moved to the ready queue right away
-        n = len(en) + (1 if timer else 0)
+            # a due timer will be moved to the ready queue right away; if it is only due within
+            # the clock resolution (early wake-up), time has moved on by the time it has run
+            loop._vtime = max(loop._vtime, loop._scheduled[0]._when)
+            return
+        early = timer and self.early_used < self.early_budget
+        n = len(en) + (1 if timer else 0) + (1 if early else 0)
         if n == 0:
             if self.thread_wait is not None and self.thread_wait(loop):
                 return
@@ -233,8 +242,12 @@ class Controller:
         c = self.chooser.choose(n, "K3")
         if c < len(en):
             self._inject(loop, en[c])
-        else:
+        elif c == len(en):
             loop._vtime = max(loop._vtime, loop._scheduled[0]._when)
+        else:
+            self.early_used += 1
+            loop._vtime = max(loop._vtime,
+                              loop._scheduled[0]._when - loop._clock_resolution / 2)
 
 
 class EnvController(Controller):
